@@ -10,46 +10,48 @@ Definition zatoshi (v : Z) : Prop := 0 <= v <= MAX_MONEY.
 Lemma optZ_rem rem : 0 <= rem -> optZ (if 0 <? rem then Some rem else None) = rem.
 Proof. intros. destruct (0 <? rem) eqn:E; cbn [optZ]; lia. Qed.
 
-Section Derived.
+Section DerivedG.
   Variables total nc cap buffer fee : Z.
   Variable orc : oracle.
+  Variables (L : list Z) (mind maxd : Z).
+  Hypothesis HL : Ladder L mind maxd.
   Hypothesis Htotal : zatoshi total.
   Hypothesis Hbuffer : zatoshi buffer.
   Hypothesis Hfee : zatoshi fee.
-  Hypothesis Hcap : 1 <= cap.
+  Hypothesis Hcap : 0 <= cap.
 
-  Local Notation full := (canonical_split (Z.to_nat cap) total buffer fee (nc =? 1)).
-  Local Notation assumed := (assumed_txs (Z.to_nat cap) total buffer fee (nc =? 1)).
-  Local Notation run := (plan_denominations total nc cap buffer fee orc).
+  Local Notation full := (split_of L (Z.to_nat cap) total buffer fee (nc =? 1)).
+  Local Notation assumed := (assumed_of L (Z.to_nat cap) total buffer fee (nc =? 1)).
+  Local Notation run := (plan (mkStrategy cap maxd mind buffer) total nc fee orc).
 
   Local Ltac use_spec p Hp :=
-    destruct (plan_spec total nc cap buffer fee orc Htotal Hbuffer Hfee ltac:(lia))
+    destruct (plan_spec_g total nc cap buffer fee orc L mind maxd HL Htotal Hbuffer Hfee Hcap)
       as [k [n [calls [E [K1 [K2 [K3 [K4 [K5 K6]]]]]]]]];
     cbn zeta in *;
     rewrite E in Hp; inversion Hp; subst p; clear Hp;
     cbn [p_cross p_out p_change p_fees p_total p_migr p_buf p_calls].
 
   (** the planner returns a plan: no panic, no fuel exhaustion, for any oracle *)
-  Lemma plan_total_ok : exists p, run = Ok p.
+  Lemma plan_total_ok_g : exists p, run = Ok p.
   Proof.
-    destruct (plan_spec total nc cap buffer fee orc Htotal Hbuffer Hfee ltac:(lia)) as [k [n [calls [E _]]]].
+    destruct (plan_spec_g total nc cap buffer fee orc L mind maxd HL Htotal Hbuffer Hfee Hcap) as [k [n [calls [E _]]]].
     eexists. exact E.
   Qed.
 
-  Lemma plan_crossings p : run = Ok p ->
-    Forall Canonical (p_cross p) /\ nonincreasing (p_cross p) = true
+  Lemma plan_crossings_g p : run = Ok p ->
+    Forall (fun s => In s L) (p_cross p) /\ nonincreasing (p_cross p) = true
     /\ Z.of_nat (length (p_cross p)) <= cap /\ Prefix (p_cross p) full.
   Proof.
     intros Hp. use_spec p Hp.
-    split; [apply Forall_firstn, split_canonical; unfold zatoshi in *; lia|].
-    split; [apply nonincreasing_firstn, split_sorted; unfold zatoshi in *; lia|].
+    split; [apply Forall_firstn, split_members_g|].
+    split; [apply nonincreasing_firstn; apply (split_sorted_g total buffer fee L mind maxd HL); unfold zatoshi in *; lia|].
     split.
-    - pose proof (split_length total buffer fee (Z.to_nat cap) (nc =? 1)) as L.
+    - pose proof (split_length_g total buffer fee L (Z.to_nat cap) (nc =? 1)) as LL.
       pose proof (firstn_le_length k full). lia.
     - exists k. reflexivity.
   Qed.
 
-  Lemma plan_conservation p : run = Ok p ->
+  Lemma plan_conservation_g p : run = Ok p ->
     p_out p = map (fun c => c + buffer) (p_cross p)
     /\ sumZ (p_out p) + p_fees p + optZ (p_change p) = total
     /\ p_migr p = sumZ (p_cross p) /\ p_total p = total /\ p_buf p = buffer
@@ -62,7 +64,7 @@ Section Derived.
     intros c Hc. destruct (0 <? _) eqn:B in Hc; [|discriminate]. inversion Hc; subst. lia.
   Qed.
 
-  Lemma plan_fees p : run = Ok p ->
+  Lemma plan_fees_g p : run = Ok p ->
     (p_cross p = [] -> p_fees p = 0)
     /\ (p_cross p <> [] ->
         exists a, orc (Nat.pred (Z.to_nat (p_calls p))) (p_out p) = Some a /\ p_fees p = Z.of_N a * fee).
@@ -79,22 +81,22 @@ Section Derived.
 
   Lemma assumed_of_empty : full = [] -> assumed = 0.
   Proof.
-    unfold canonical_split, assumed_txs.
-    destruct (exact_note total buffer (nc =? 1) && (0 <? Z.to_nat cap)%nat); [discriminate|].
+    unfold split_of, assumed_of.
+    destruct (exact_note_of L total buffer (nc =? 1) && (0 <? Z.to_nat cap)%nat); [discriminate|].
     intros ->. reflexivity.
   Qed.
 
-  Lemma plan_residual p a : run = Ok p ->
+  Lemma plan_residual_g p a : mind <= maxd -> run = Ok p ->
     orc O (map (fun c => c + buffer) full) = Some a -> Z.of_N a = assumed ->
     p_cross p = full
-    /\ ((length full < Z.to_nat cap)%nat -> optZ (p_change p) < MIN + buffer + fee).
+    /\ ((length full < Z.to_nat cap)%nat -> optZ (p_change p) < mind + buffer + fee).
   Proof.
-    intros Hp HO Ha. use_spec p Hp.
+    intros Hmm Hp HO Ha. use_spec p Hp.
     assert (B0 : 0 <= buffer) by (unfold zatoshi in *; lia).
     assert (F0 : 0 <= fee) by (unfold zatoshi in *; lia).
     assert (T0 : 0 <= total) by (unfold zatoshi in *; lia).
-    pose proof (split_cost total buffer fee (Z.to_nat cap) (nc =? 1) T0) as C. cbn zeta in C.
-    pose proof (split_residual total buffer fee B0 F0 (Z.to_nat cap) (nc =? 1)) as R. cbn zeta in R.
+    pose proof (split_cost_g total buffer fee L (Z.to_nat cap) (nc =? 1) T0) as C. cbn zeta in C.
+    pose proof (split_residual_g total buffer fee L mind maxd HL B0 F0 (Z.to_nat cap) (nc =? 1) Hmm) as R. cbn zeta in R.
     destruct full as [|x l] eqn:F.
     - assert (k = O) by (cbn [length] in K1; lia). subst k. cbn [firstn].
       split; [reflexivity|]. intros Hl. specialize (R Hl).
@@ -103,6 +105,59 @@ Section Derived.
     - destruct (K6 a ltac:(discriminate) HO ltac:(rewrite Ha; exact C)) as [-> ->].
       rewrite firstn_all. split; [reflexivity|]. intros Hl. specialize (R Hl).
       rewrite optZ_rem by lia. rewrite Ha. exact R.
+  Qed.
+End DerivedG.
+
+(** The same clauses for the normative ZIP 318 bounds ([plan_denominations]). *)
+Section Derived.
+  Variables total nc cap buffer fee : Z.
+  Variable orc : oracle.
+  Hypothesis Htotal : zatoshi total.
+  Hypothesis Hbuffer : zatoshi buffer.
+  Hypothesis Hfee : zatoshi fee.
+  Hypothesis Hcap : 1 <= cap.
+
+  Local Notation full := (canonical_split (Z.to_nat cap) total buffer fee (nc =? 1)).
+  Local Notation assumed := (assumed_txs (Z.to_nat cap) total buffer fee (nc =? 1)).
+  Local Notation run := (plan_denominations total nc cap buffer fee orc).
+  Let Hcap0 : 0 <= cap. Proof. lia. Qed.
+
+  Lemma plan_total_ok : exists p, run = Ok p.
+  Proof. exact (plan_total_ok_g total nc cap buffer fee orc series MIN CAP zip318_ladder Htotal Hbuffer Hfee Hcap0). Qed.
+
+  Lemma plan_crossings p : run = Ok p ->
+    Forall Canonical (p_cross p) /\ nonincreasing (p_cross p) = true
+    /\ Z.of_nat (length (p_cross p)) <= cap /\ Prefix (p_cross p) full.
+  Proof.
+    intros Hp.
+    destruct (plan_crossings_g total nc cap buffer fee orc series MIN CAP zip318_ladder Htotal Hbuffer Hfee Hcap0 p Hp)
+      as [C1 [C2 [C3 C4]]].
+    rewrite split_of_series in C4.
+    split; [|split; [exact C2 | split; [exact C3 | exact C4]]].
+    eapply Forall_impl; [|exact C1]. intros a Ha. exact (series_canonical a Ha).
+  Qed.
+
+  Lemma plan_conservation p : run = Ok p ->
+    p_out p = map (fun c => c + buffer) (p_cross p)
+    /\ sumZ (p_out p) + p_fees p + optZ (p_change p) = total
+    /\ p_migr p = sumZ (p_cross p) /\ p_total p = total /\ p_buf p = buffer
+    /\ 0 <= p_fees p /\ (forall c, p_change p = Some c -> 0 < c).
+  Proof. exact (plan_conservation_g total nc cap buffer fee orc series MIN CAP zip318_ladder Htotal Hbuffer Hfee Hcap0 p). Qed.
+
+  Lemma plan_fees p : run = Ok p ->
+    (p_cross p = [] -> p_fees p = 0)
+    /\ (p_cross p <> [] ->
+        exists a, orc (Nat.pred (Z.to_nat (p_calls p))) (p_out p) = Some a /\ p_fees p = Z.of_N a * fee).
+  Proof. exact (plan_fees_g total nc cap buffer fee orc series MIN CAP zip318_ladder Htotal Hbuffer Hfee Hcap0 p). Qed.
+
+  Lemma plan_residual p a : run = Ok p ->
+    orc O (map (fun c => c + buffer) full) = Some a -> Z.of_N a = assumed ->
+    p_cross p = full
+    /\ ((length full < Z.to_nat cap)%nat -> optZ (p_change p) < MIN + buffer + fee).
+  Proof.
+    intros Hp HO Ha. rewrite <- split_of_series in *. rewrite <- assumed_of_series in Ha.
+    exact (plan_residual_g total nc cap buffer fee orc series MIN CAP zip318_ladder Htotal Hbuffer Hfee Hcap0 p a
+             MIN_le_CAP Hp HO Ha).
   Qed.
 End Derived.
 
